@@ -5,7 +5,10 @@
 // (public) and two users. Operations: userinfo (Authorization header GET/POST, access_token form and query
 // parameter), introspection (by the owner, by a second audience member, by foreign authenticated clients, with bad
 // or no credentials), revocation (with / without / wrong / junk token_type_hint; by the owner, a foreign client, a
-// public client, with bad credentials; of garbage), end_session with id_token_hint, token exchange with pool tokens
+// public client, with bad credentials; of garbage; one owner revocation in six under an injected storage fault),
+// end_session with id_token_hint (one in three under an injected storage fault: the call that ends the session -
+// TerminateSessionFromRequest or TerminateSession, depending on the storage's capabilities -, the k-th storage call,
+// the key set: a 302 answer means the session's tokens are dead from then on), token exchange with pool tokens
 // as subject and actor, and the harness moving stored expiries into the past. Every history runs on both routers and
 // is judged by a sequential liveness model:  live ⇔ issued ∧ ¬expired ∧ ¬revoked ∧ session not terminated.
 // Two-directional for userinfo and introspection, one-directional for token exchange.
@@ -51,6 +54,7 @@ func main() {
 		"introspection: the oracle's caller is the client the credential authenticates (assertion issuer / Basic user), never a form client_id sent next to it",
 		"an expired id_token_hint signed by the provider's key with the right iss / sub / azp is a logout hint like a valid one: a 302 answer means the (sub, azp) session is terminated",
 		"token exchange is judged one-directionally (a refused live token is counted only); revocation of an already dead token by anybody is counted only",
+		"storage faults (vstore fault plan: plain error, wrapped context.DeadlineExceeded, oidc server_error) at a revocation or a logout: the answer is judged like any other - 200 at /revoke means the token is unusable from then on, 302 at /end_session means the session's tokens are unusable from then on; an error answer demands nothing (a failed vstore call has no effect; after a refused logout the storage monitor is consulted and the model follows it if the session ended anyway - counted, not judged)",
 	)
 	var mandatory []string
 	for _, rn := range opdrv.RouterNames {
@@ -68,6 +72,7 @@ func main() {
 			"introspect-mixed-assertion-inactive:"+rn, "introspect-mixed-basic-inactive:"+rn, "introspect-active:mixed-basic-owner:"+rn,
 			"introspect-active:assertion-audmember:"+rn,
 			"end_session-valid-hint:"+rn, "end_session-expired-hint:"+rn,
+			"end_session-under-storage-fault:from-request:"+rn, "end_session-under-storage-fault:plain:"+rn, "end_session-under-storage-fault:error-answer:"+rn,
 			"forged-unknown-revoke-200:owner:"+rn, "forged-unknown-revoke-200:foreign:"+rn, "forged-unknown-key-jwt-revoke-200:"+rn,
 			"forged-rotated-key-revoke-200:"+rn,
 		)
